@@ -1,0 +1,35 @@
+//go:build !verif
+
+package rueidis
+
+import (
+	"context"
+	"sync"
+)
+
+// The verif* functions are scheduling and tracing seams for the deterministic
+// simulation harness. Without the "verif" build tag they are empty and inlined.
+
+func verifYield(context.Context, string, any, Completed) {}
+
+func verifTrace(string, any, uint64, uint64) {}
+
+func verifLocker() sync.Locker { return &sync.Mutex{} }
+
+func verifRing(*ring) {}
+
+func verifPool(*pool) {}
+
+func verifFirst(multi []Completed) (c Completed) {
+	if len(multi) != 0 {
+		c = multi[0]
+	}
+	return c
+}
+
+func verifFirstCacheable(multi []CacheableTTL) (c Completed) {
+	if len(multi) != 0 {
+		c = Completed(multi[0].Cmd)
+	}
+	return c
+}
